@@ -627,6 +627,28 @@ fn collector_filter(p: &mut Partial) {
     }
 }
 
+/// Which acceptance statistic steers the step size in which phase (used by C07): the real
+/// `GlobalStrategy::adapt` with dual averaging and with Adam, every event word of a short warmup
+/// in lock-step with the reference recurrences fed with the plain statistic in the early phase and
+/// the symmetric one in the late phase. Keys are re-labelled for C07.
+pub fn step_size_statistic_partial(_tier: Tier) -> Partial {
+    let mut p = Partial::new();
+    for adam in [false, true] {
+        for (nt, ew, ssw) in [(4u64, 0.3, 0.15), (5, 0.3, 0.5), (6, 0.5, 0.3)] {
+            let o = Opts { lowrank: false, num_tune: nt, early_window: ew, step_size_window: ssw, switch_freq: 3, early_switch_freq: 2, update_freq: 1, growth: 1.5, bfs_only: false, adam };
+            for w in all_words(nt as usize + 2) {
+                if run_word(&o, &w, &mut p, true).is_none() {
+                    break;
+                }
+            }
+        }
+    }
+    for v in p.violations.iter_mut() {
+        v.key = v.key.replacen("C09/", "C07/schedule-level/", 1);
+    }
+    p
+}
+
 pub fn run(tier: Tier, _replay: Option<String>) -> i32 {
     let mut report = Report::new(
         "C09",
